@@ -18,7 +18,9 @@ use std::io::{BufWriter, Write};
 
 fn main() {
     // panics are values here: silence the default hook, catch_unwind reports them
-    std::panic::set_hook(Box::new(|_| {}));
+    if std::env::var("IPT_SHOW_PANICS").is_err() {
+        std::panic::set_hook(Box::new(|_| {}));
+    }
     let args: Vec<String> = std::env::args().collect();
     let cmd = args.get(1).map(|s| s.as_str()).unwrap_or("");
     match cmd {
